@@ -23,6 +23,7 @@ type c16sub struct {
 var c16subs = []c16sub{
 	{strings.Repeat(" ", 33), "whitespace"}, {strings.Repeat(" \t\r\n", 17), "whitespace"}, {strings.Repeat("\n", 257), "whitespace"},
 	{"\t", "whitespace"}, {"\n", "whitespace"}, {"\r", "whitespace"}, {"\r\n", "whitespace"}, {"  ", "whitespace"}, {" \t\r\n ", "whitespace"},
+	{" /* a */ /* b */ ", "block-comment"}, {" -- a\n/* b */ ", "line-comment"}, {" /* a */\n-- b\n ", "block-comment"},
 	{" -- c\n", "line-comment"}, {"\n--\n", "line-comment"}, {" -- ; \n", "line-comment"}, {" --c\r\n ", "line-comment"},
 	{" /* c */ ", "block-comment"}, {" /**/ ", "block-comment"}, {" /* -- */ ", "block-comment"}, {" /* ' */ ", "block-comment"}, {" /* ; */ ", "block-comment"}, {"\n/* a\nb */\n", "block-comment"}, {" /*/ c */ ", "block-comment"}, {" /***/ ", "block-comment"}, {" /****/ ", "block-comment"}, {" /* c ***/ ", "block-comment"}, {" /*** c ***/ ", "block-comment"}, {" /*******/ ", "block-comment"},
 }
@@ -281,9 +282,9 @@ func init() {
 }
 
 func c16run(r *ev.Run) {
-	sets := []boundSet{{"struct<=2 x every gap that may hold whitespace x 25 substitutions", []int{2, 0, 0}}}
+	sets := []boundSet{{"struct<=2 x every gap that may hold whitespace x 28 substitutions", []int{2, 0, 0}}}
 	if thorough(r) {
-		sets = []boundSet{{"struct<=3 x every gap that may hold whitespace x 25 substitutions", []int{3, 0, 0}}}
+		sets = []boundSet{{"struct<=3 x every gap that may hold whitespace x 28 substitutions", []int{3, 0, 0}}}
 	}
 	runGrammar(r, sets, c16gapBody)
 	// statement separation
